@@ -63,7 +63,7 @@ def run(shard, ctx):
     dense = shard.get("dense", False)
     workloads.run_remap_batch(
         shard, ctx, kinds=("pv",), oracle=lambda c, o, x: oracle(c, o, x, dense),
-        opts={"max_texels": 12, "small_t": True, "no_join_gap": 0.1} if dense else {"no_join_gap": 0.1},
+        opts={"max_texels": 12, "small_t": True, "no_join_gap": 0.1} if dense else {"no_join_gap": 0.1, "gap_only": 0.08},
     )
 
 
@@ -102,5 +102,6 @@ def gates(c, tier):
         "label:in:fwd-only": 500,
         "label:pv:painted": 1000,
         "label:pv:unpainted": 1000,
+        "label:in:gap-only-scaffold": 100,
     }
     return [f"{k}>={v} (got {c.get(k, 0)})" for k, v in need.items() if c.get(k, 0) < v]
